@@ -220,7 +220,11 @@ func fq(msg sdk.Msg) string {
 // Exec runs one transaction the way BaseApp.runTx/runMsgs does minus the ante handler:
 // ValidateBasic, handler on a cache branch with a fresh event manager, write-back only on success;
 // a panic is recovered and counts as a failed transaction.
-func (w *World) Exec(st State, msg sdk.Msg) (res TxResult) {
+func (w *World) Exec(st State, msg sdk.Msg) (res TxResult) { return w.ExecGas(st, msg, nil) }
+
+// ExecGas is Exec with a caller-supplied gas meter (nil = the context's infinite meter). Running out of gas panics inside
+// the store access, is recovered like any panic and discards the branch — exactly what BaseApp.runTx does.
+func (w *World) ExecGas(st State, msg sdk.Msg, meter sdk.GasMeter) (res TxResult) {
 	h := w.App.MsgServiceRouter().Handler(fq(msg))
 	if h == nil {
 		panic("no handler for " + fq(msg))
@@ -250,6 +254,9 @@ func (w *World) Exec(st State, msg sdk.Msg) (res TxResult) {
 	}
 	cctx, write := st.Ctx.CacheContext()
 	cctx = cctx.WithEventManager(sdk.NewEventManager())
+	if meter != nil {
+		cctx = cctx.WithGasMeter(meter)
+	}
 	r, err := h(cctx, msg)
 	if err != nil {
 		return TxResult{Err: err.Error()}
